@@ -94,28 +94,107 @@ func Check(opt Options) int {
 	return r.finish(opt, sel, reports, t0, loadSecs)
 }
 
+func choiceSig(cs []Choice) string {
+	var sb strings.Builder
+	for _, c := range cs {
+		fmt.Fprintf(&sb, "%s=%d;", c.Name, c.Val)
+	}
+	return sb.String()
+}
+
+// dischargeAll groups the obligations of a harness by (kind,label,site,choices) and
+// decides each group with one query: OR over paths of (path condition ∧ ¬claim).
 func (r *Runner) dischargeAll(tf *TF, dom Domain, rep *HarnessReport) {
-	// reach obligations: per label, stop at first sat
-	reachDone := map[string]bool{}
-	var par []*Obligation
+	type grp struct {
+		first *Obligation
+		all   []*Obligation
+	}
+	groups := map[string]*grp{}
+	var order []string
 	for _, o := range rep.Obls {
-		if o.Folded {
+		if o.Folded || o.Kind == "reach" {
 			continue
 		}
-		if o.Kind == "reach" {
-			continue
+		k := o.Kind + "|" + o.Label + "|" + o.Site + "|" + choiceSig(o.Choices)
+		g := groups[k]
+		if g == nil {
+			g = &grp{first: o}
+			groups[k] = g
+			order = append(order, k)
 		}
-		par = append(par, o)
+		g.all = append(g.all, o)
+	}
+	var combined []*Obligation
+	const chunk = 400
+	for _, k := range order {
+		g := groups[k]
+		for i := 0; i < len(g.all); i += chunk {
+			j := i + chunk
+			if j > len(g.all) {
+				j = len(g.all)
+			}
+			part := g.all[i:j]
+			if len(part) == 1 {
+				o := part[0]
+				o.negCond = tf.Not(o.Cond)
+				combined = append(combined, o)
+				continue
+			}
+			var disj []*Term
+			seenIn := map[int]bool{}
+			var inputs []*Term
+			for _, o := range part {
+				o.negCond = tf.Not(o.Cond)
+				cs := append(append([]*Term(nil), o.PC...), o.negCond)
+				disj = append(disj, tf.And(cs...))
+				for _, in := range o.Inputs {
+					if !seenIn[in.ID] {
+						seenIn[in.ID] = true
+						inputs = append(inputs, in)
+					}
+				}
+			}
+			c := &Obligation{Harness: g.first.Harness, Kind: g.first.Kind, Label: g.first.Label, Site: g.first.Site, Choices: g.first.Choices,
+				Inputs: inputs, Cond: tf.False, negCond: tf.Or(disj...), members: part}
+			combined = append(combined, c)
+		}
 	}
 	var wg sync.WaitGroup
-	for _, o := range par {
+	for _, o := range combined {
 		wg.Add(1)
 		go func(o *Obligation) {
 			defer wg.Done()
 			r.discharge(tf, dom, o, rep)
+			for _, m := range o.members {
+				m.Status, m.Solver, m.Detail, m.Size = o.Status, o.Solver, o.Detail, o.Size
+				if o.Status == "sat" {
+					m.Status = "sat-in-group"
+				}
+			}
+			if len(o.members) > 0 {
+				m := o.members[0]
+				m.Secs = o.Secs
+				if o.Status == "sat" {
+					// find a member path that is satisfiable on its own (its trace/choices drive the replay)
+					found := false
+					for _, c := range o.members {
+						r.discharge(tf, dom, c, rep)
+						if c.Status == "sat" {
+							found = true
+							break
+						}
+						c.Status = "sat-in-group"
+					}
+					if !found {
+						m.Status = "error"
+						m.Detail = "group query sat but no member path sat"
+					}
+				}
+			}
 		}(o)
 	}
 	wg.Wait()
+	reachDone := map[string]bool{}
 	for _, o := range rep.Obls {
 		if o.Kind != "reach" {
 			continue
@@ -272,6 +351,7 @@ func (r *Runner) finish(opt Options, sel []*ssa.Function, reports []*HarnessRepo
 					solver = o.Solver
 				}
 				switch {
+				case o.Status == "sat-in-group":
 				case o.Status == "sat" || o.Status == "folded-false" || (o.Cond.IsFalse() && o.Kind != "unwind" && o.Status == ""):
 					sat = append(sat, o)
 				case o.Status == "unknown" || o.Status == "error":
@@ -456,6 +536,9 @@ func (r *Runner) replayObl(prop string, rep *HarnessReport, o *Obligation) (stri
 	}
 	rf := &ReplayFile{Property: prop, Harness: rep.Name, Package: rep.Pkg, Kind: o.Kind, Label: o.Label, Site: o.Site, Domain: rep.Dom,
 		Vars: modelToVars(o, dom), Choices: map[string]int64{}, Solver: o.Solver}
+	if len(o.Trace) > 0 {
+		rf.Stream = buildStream(o.Trace, rf.Vars)
+	}
 	for _, c := range o.Choices {
 		rf.Choices[c.Name] = c.Val
 	}
